@@ -10,6 +10,8 @@ FLAV = {
     "e": "Favour changes in modules the property depends on indirectly (shared helpers, formatters, parsers, data classes, naming/sorting utilities, logging set-up) rather than at the most obvious site, and changes introduced while 'improving' performance or robustness (caching, memoisation, batching writes, reusing objects or file handles, catching exceptions).",
     "f": "Favour changes outside the most obvious function: the command-line wiring (how options are passed down, defaults, early exits), helper functions shared by several callers, module-level state, the second or third output file rather than the first, the less common input or output format, the error path rather than the success path. Each change must still break the property as stated and need something specific to show.",
     "g": "Favour the SMALLEST possible changes - one token or one line: a flipped comparison or boundary (< vs <=, > vs >=), an off-by-one, swapped arguments, a wrong default value, a dropped `not`, `and` vs `or`, a wrong variable of the same type, a removed statement, an `if` that became unconditional - at sites the property depends on. Each must still pass all 64 tests and need something specific to show.",
+    "i": "Make every change in a file OTHER than the ones the property record lists under anchors.files (for example the parser, the formatters, the Scaffold/Assembly/Fragment/Gap data classes, build utilities, statistics, the simple FASTA helpers, the other command-line scripts) - a helper the anchored code calls or a module whose state it shares - so that the property as stated breaks although the anchored functions themselves are untouched.",
+    "h": "Favour changes to recently added or recently modified code (see `git log -p -3` in the worktree) and to the way older code interacts with it: a later 'simplification' or 'optimisation' of a recent fix that quietly removes what made it correct, while keeping the obvious half of the fix intact.",
 }
 T = """You are helping to evaluate a verification harness by writing *seeded defects* for an open-source Python project (sanger-tol/agp-tpf-utils: CLI utilities for AGP/TPF genome assembly files with a streaming FASTA indexer/writer). This is authorised mutation-testing work on a scratch copy; nothing you write is ever merged.
 
